@@ -88,6 +88,7 @@ func runReader(format string, img []byte, want int, c *RCase, limit int, x *sim.
 	}
 	var buf []byte
 	zeroStreak := 0
+	lastTok := ""
 	for i := 0; ; i++ {
 		l := reads[i%len(reads)]
 		rem := want - len(res.Out)
@@ -125,6 +126,14 @@ func runReader(format string, img []byte, want int, c *RCase, limit int, x *sim.
 		}
 		rr := ReadRes{Len: l, N: n, Err: err}
 		res.Calls = append(res.Calls, rr)
+		tok := "r" + sim.Bucket(l) + sim.Bucket(n)
+		if err != nil {
+			tok += "E"
+		}
+		if tok != lastTok {
+			x.Shape(tok)
+			lastTok = tok
+		}
 		x.Ev("read(%d) -> n=%d err=%v", l, n, err)
 		if n < 0 || n > l {
 			res.BadN = &rr
